@@ -592,7 +592,10 @@ pub fn run(args: &vpc::Args) -> ! {
     }
     findings.flush(&run);
     let kinds = |k: &str| st.outcomes.get(&format!("path-kind:{k}")).copied().unwrap_or(0);
-    if std::env::var("VP_ONLY").is_err() && (kinds("shortcut") == 0 || kinds("peering") == 0 || kinds("three-segment") == 0) {
+    // Path kinds are classified from what the forwarding walk saw; when paths of a kind are refused before
+    // their cross-over (a violation that is reported above) the kind cannot be observed: the non-vacuity
+    // guard only applies to runs without violations.
+    if std::env::var("VP_ONLY").is_err() && run.violation_count() == 0 && (kinds("shortcut") == 0 || kinds("peering") == 0 || kinds("three-segment") == 0) {
         vpc::machinery_failure(&format!("vacuous: shortcut={} peering={} three-segment={}", kinds("shortcut"), kinds("peering"), kinds("three-segment")));
     }
     run.sample(1, || json!({"topologies": jobs.len(), "pairs": st.pairs, "paths": st.paths}));
